@@ -355,6 +355,8 @@ def c02(tier):
     if tier == "quick":      # everything at 65535 / 65536; a third of the rest
         bs = [s for i, s in enumerate(bs) if i % 3 == sd % 3 or "-65535-" in s["sc"] or "-65536-" in s["sc"]]
     run_writer_programs(rep, wd, scs + bs, "valid", referees=True)
+    # the archive-level ZIP64 records (end record, locator) only exist beyond 65 535 entries / 4 GiB: their structure is judged here too
+    run_zip64_subset(rep, wd, tier, ("count-65536",) if tier == "quick" else ("count-",), "zip64-endrecords")
     return rep.finish("model_checking",
                       "every archive the writer reports as finished is lexed by the harness's independent strict parser "
                       "and judged by ZipFormat!WriterWellFormed + equality with the layout ZipWriter.tla predicts; CPython "
@@ -1021,6 +1023,11 @@ def read_seeds(rnd, small=True):
         {"name": b"deflate.txt", "method": 8, "data": txt},
         {"name": b"bzip2.txt", "method": 12, "data": txt},
         {"name": b"empty", "method": 0, "data": b""}]}, []))
+    # names that end in a separator say "directory" to is_dir(); the bytes and the declared CRC are entry data all the same
+    seeds.append(("dirnamed", {"entries": [
+        {"name": b"payload-dir/", "method": 0, "data": rb[:24]},
+        {"name": b"payload-bs\\", "method": 8, "data": txt},
+        {"name": b"real-dir/", "method": 0, "data": b""}]}, []))
     seeds.append(("zc", {"entries": [
         {"name": b"zc-stored", "method": 0, "data": rb, "enc": ("zc", b"pass")},
         {"name": b"zc-deflate", "method": 8, "data": txt, "enc": ("zc", b"pass")},
